@@ -9,6 +9,9 @@ import Driver.C09Stage
 import Driver.C09Pipe
 import Driver.C09File
 import Driver.C09Text
+import Driver.C09DeclText
+import Driver.C09CallText
+import Driver.C09FileText
 
 /-! Line-protocol handler for property C09 (formatter core). -/
 namespace Driver.C09
@@ -198,6 +201,6 @@ def handle (op : String) (args : List String) : Option String :=
   | "normcall", [c] => do
     let c ← decCall c
     pure (encCall (Martian.FormatCall.normCall c))
-  | op, args => Driver.C09.handleDecl op args <|> Driver.C09.handleRes op args <|> Driver.C09.handleCall2 op args <|> Driver.C09.handleStage op args <|> Driver.C09.handlePipe op args <|> Driver.C09.handleFile op args <|> Driver.C09.handleText decode op args
+  | op, args => Driver.C09.handleDecl op args <|> Driver.C09.handleRes op args <|> Driver.C09.handleCall2 op args <|> Driver.C09.handleStage op args <|> Driver.C09.handlePipe op args <|> Driver.C09.handleFile op args <|> Driver.C09.handleText decode op args <|> Driver.C09.handleDeclText op args <|> Driver.C09.handleCallText op args <|> Driver.C09.handleFileText op args
 
 end Driver.C09
